@@ -500,7 +500,7 @@ func c03Case(rt *rapid.T, rec *vh.Recorder, base string) {
 				}
 			} else {
 				rr := verifJMix(x.seed, uint64(r.off))
-				add(r.off + 6 + int64(rr.intn(9)))  // inside the timestamp
+				add(r.off + 6 + int64(rr.intn(9)))   // inside the timestamp
 				add(r.off + 16 + int64(rr.intn(20))) // inside the address
 				add(r.off + 36 + int64(rr.intn(4)))  // inside the checksum
 			}
